@@ -343,6 +343,10 @@ func genWorld(r *simkit.RNG, sc *Scenario, k *gknobs) {
 							}
 						case 2:
 							dg.File = "/abs/not-a-subpath"
+							if simkit.NewRNG(sc.Seed, "bw/diag-dot-"+dg.ID).Chance(1, 2) {
+								// about the package's top directory as a whole
+								dg.File = "."
+							}
 						}
 						m.Diags = append(m.Diags, dg)
 					}
